@@ -101,3 +101,14 @@ CLAIMS["C11"] = (
     "return the input itself",
     "6/C11", TRUSTED + "; maps with non-symbol keys are not covered by the value clause",
     "TLA+ denotational semantics of substitution + TLC trace validation")
+
+CLAIMS["C13"] = (
+    "model_checking",
+    "TLC explores every init/call history of one evaluator object (state = the arguments of the last init) up to "
+    "depth 4 (thorough 5) over 5 output lists whose CSE replacement counts differ, both cse settings and 3 input "
+    "vectors, for the real and the complex visitor; every history ending in a call is replayed on ONE visitor "
+    "object; TLC re-runs the state machine on the recorded steps and demands agreement with a fresh object and "
+    "with a fresh object without CSE (2^-40) and the exact value on the exact fragment",
+    "6/C13", TRUSTED + "; rounding accuracy of transcendental nodes at arbitrary arguments is not decided "
+    "(TLA+ has no reals); transcendental outputs are only compared across evaluators",
+    "TLA+ state machine of the evaluator object + behaviours replayed + TLC trace validation")
